@@ -142,9 +142,36 @@ theorem numDigits_le : ∀ (fuel T k : ℕ), 1 ≤ k → T < 10 ^ k → numDigit
 
 /-- `add_time_variable` reads every TSTEP — any number of hour digits — as the IOAPI rule says (repaired code) -/
 theorem atv_tstep_ok (T : ℕ) : (tstepSecondsATV T : ℤ) = tstepSeconds (T : ℤ) := by
-  unfold tstepSecondsATV tstepSeconds
+  unfold tstepSecondsATV tstepSeconds hmsSeconds
+  have : ¬ ((T : ℤ) < 0) := by omega
+  simp only [this, if_false]
   push_cast
   omega
+
+/-- **C12 (TSTEP).** hours, minutes and seconds of a step are read digit-wise from the magnitude -/
+theorem tstep_decode (h m s : ℕ) (hm : m < 60) (hs : s < 60) :
+    tstepSeconds ((h * 10000 + m * 100 + s : ℕ) : ℤ) = ((h * 3600 + m * 60 + s : ℕ) : ℤ) := by
+  unfold tstepSeconds hmsSeconds
+  have : ¬ (((h * 10000 + m * 100 + s : ℕ) : ℤ) < 0) := by omega
+  simp only [this, if_false]
+  push_cast
+  omega
+
+/-- a file that runs backward in time: the step is the mirror image of the forward step -/
+theorem tstep_neg (T : ℤ) : tstepSeconds (-T) = - tstepSeconds T := by
+  unfold tstepSeconds
+  by_cases h0 : T = 0
+  · subst h0; simp [hmsSeconds]
+  · by_cases hlt : T < 0
+    · have h1 : ¬ (-T < 0) := by omega
+      rw [if_neg h1, if_pos hlt]
+      omega
+    · have h1 : -T < 0 := by omega
+      rw [if_pos h1, if_neg hlt, neg_neg]
+
+/-- reading a negative TSTEP digit-wise with floor division (the code before the repair): -1 h 30 min came out as
+-50 min; `fixed: property=C12 2faec4b`, the witness is replayed on the real code and must not reproduce -/
+theorem tstep_floor_counterexample : hmsSeconds (-13000) = -3000 ∧ tstepSeconds (-13000) = -5400 := by decide
 
 /-- the character-position slicing the code used before mis-read a seven-digit TSTEP (100 hours):
 `fixed: property=C12 … tstep-7-digits`, the witness is replayed on the real code and must not reproduce -/
